@@ -196,11 +196,13 @@ def rolesCheck (site : Str) (allowed : List Str) (feats : List (Str × List Str)
   | _ => fail .protocol site
 
 /-- `marshal`: a role without any set feature is written as `{}`, otherwise `{"features": {...}}` -/
+def roleEnc (fs : WVal) : WVal :=
+  match fs with
+  | .dict [] => .dict []
+  | fs => .dict [(cs!"features", fs)]
+
 def rolesEncode : WVal → WVal
-  | .dict dr => .dict (dr.map (fun rv => (rv.1,
-      match rv.2 with
-      | .dict [] => .dict []
-      | fs => .dict [(cs!"features", fs)])))
+  | .dict dr => .dict (dr.map (fun rv => (rv.1, roleEnc rv.2)))
   | v => v
 
 /-- check of a *present* option value -/
